@@ -40,6 +40,10 @@ CLAIMED = {
    text="Machine-checked proof (Coq) that a consumer whose end-of-iteration test is 'StopIteration, class or instance' yields exactly the elements up to the first StopIteration and propagates every other exception for EVERY producer history, and (per run, by vm_compute over an inventory regenerated from the Go source) that every place where the error of a __next__ call decides termination uses that test; the identity and any-error tests are refuted. Generator suspension/resumption (next/send histories over several live generators, nested finally, return values, yield from) and all listed consumers x producer kinds x raise positions are compared with CPython.",
    note="Trusted: Coq kernel; the syntactic site classifier of go/cmd/extract (unknown shapes fail the obligation); CPython 3.11 as validated oracle (PEP 479 cases excluded). Partial: generator frames are not modelled; generator.throw/close are NotImplemented in gpython and outside the property.",
    technique="Rocq/Coq generic consumer theorem + per-run forallb over a regenerated inventory of termination tests + CPython differential on generator histories", ref="5/C05"),
+ "C17": dict(
+   text="Machine-checked proof (Coq) over a model of the Go-level storage of lists (slice headers over backing arrays; in-place append/store/delete, reallocation when capacity is exhausted, fresh storage for copies): every operation preserves the invariant that distinct list objects never share storage and leaves the contents of every other list object unchanged, and a copy starts with equal contents in separate storage - so a mutation is visible exactly through the aliases of the mutated object and never through a copy. The implementation's lists, string-keyed dicts and sets are compared with CPython on seeded operation histories over aliased and copied containers (state of all containers printed after every operation), plus sort-stability and targeted probes.",
+   note="Trusted: Coq kernel; the hand-written storage model (not tied by a structural correspondence: the tie is the history comparison); CPython 3.11 as validated oracle (dict/set output order-normalised). Partial: dict and set are compared by testing only; sets of cross-type-equal or unhashable elements and non-string dict keys are listed findings.",
+   technique="Rocq/Coq separation-invariant (refinement frame) proof over a Go-slice heap model + CPython differential on aliased container histories", ref="5/C17"),
 }
 NOT_YET = "check not built yet in this round (planned in DESIGN.md section 8)"
 checks = []; na = []
